@@ -42,7 +42,7 @@ func (g *gen) strs(n int) string {
 
 func (g *gen) snippet() string {
 	ev := g.Ev()
-	switch g.Pick(16, "kind") {
+	switch g.Pick(18, "kind") {
 	case 0: // sort.Slice with an interpreted less
 		g.imp("sort")
 		n := g.Int(0, 12, "n")
@@ -155,6 +155,26 @@ func (g *gen) snippet() string {
 		g.Tag("compiled functions called with interpreted values")
 		return fmt.Sprintf("{\n\tn, err := strconv.Atoi(%s)\n\tparts := strings.Split(%s, \",\")\n\trec.E(%d, n, err == nil, parts, strings.Repeat(%s, %d), strconv.Itoa(%d), strings.Join(%s, \"-\"))\n}\n",
 			g.OneOf("atoi", `"42"`, `"-7"`, `"x1"`, `""`), g.OneOf("split", `"a,b,,c"`, `""`, `"abc"`), ev, g.OneOf("rep", `"ab"`, `"é"`), g.Int(0, 3, "times"), g.Int(-50, 5000, "itoa"), g.strs(g.Int(0, 4, "nj")))
+	case 15: // an interpreted named FUNC type with a method, stored in a compiled interface, then the variable is reassigned
+		g.imp("fmt")
+		g.calls += 3
+		g.Tag("named func type as fmt.Stringer, variable reassigned afterwards")
+		hf := g.Top("Namer")
+		g.decls = append(g.decls,
+			fmt.Sprintf("type %s func() string", hf),
+			fmt.Sprintf("func (f %s) String() string { return \"<\" + f() + \">\" }", hf))
+		return fmt.Sprintf("{\n\tvar h %s = func() string { return %s }\n\tvar s fmt.Stringer = h\n\th = func() string { return \"later\" }\n\trec.E(%d, rec.Str(s), h.String(), s.String())\n}\n", hf, g.OneOf("nm", `"one"`, `"x y"`, `""`), ev)
+	case 16: // struct value vs pointer stored in a compiled interface, then the variable is modified
+		g.imp("fmt")
+		g.calls += 4
+		g.Tag("value vs pointer in compiled interface, variable modified afterwards")
+		t := g.Top("Pt")
+		g.decls = append(g.decls,
+			fmt.Sprintf("type %s struct{ x, y int }", t),
+			fmt.Sprintf("func (p %s) String() string { return fmt.Sprint(p.x, \",\", p.y) }", t),
+			fmt.Sprintf("func (p *%s) Error() string { return fmt.Sprint(\"err \", p.x, \",\", p.y) }", t))
+		a, b := g.Int(0, 9, "a"), g.Int(0, 9, "b")
+		return fmt.Sprintf("{\n\tv := %s{%d, %d}\n\tvar byval fmt.Stringer = v\n\tvar byptr error = &v\n\tv.x = %d\n\trec.E(%d, rec.Str(byval), rec.Err(byptr), v.String())\n}\n", t, a, b, a+50, ev)
 	default: // sort.Strings / sort.Ints on interpreted slices + math
 		g.imp("sort")
 		g.imp("math")
